@@ -20,7 +20,7 @@ macro_rules! roundtrip {
         #[kani::stub(std::backtrace::Backtrace::capture, no_backtrace)]
         #[kani::stub(alloc::fmt::format, no_format)]
         #[kani::stub(anyhow::__private::format_err, error_is_failure)]
-        fn $name() {
+        pub fn $name() {
             let xs: [$t; 1] = kani::any();
             match vec_to_bytes(&xs, $st) {
                 Ok(bytes) => {
@@ -71,7 +71,7 @@ roundtrip!(rt_i64_u32, i64, UINT32, 32, false);
 #[kani::stub(std::backtrace::Backtrace::capture, no_backtrace)]
 #[kani::stub(alloc::fmt::format, no_format)]
 #[kani::stub(anyhow::__private::format_err, error_is_failure)]
-fn bits_pack_1_to_17() {
+pub fn bits_pack_1_to_17() {
     let n: usize = kani::any();
     kani::assume(n >= 1 && n <= 17);
     let raw: [u8; 17] = kani::any();
@@ -101,7 +101,7 @@ fn bits_pack_1_to_17() {
 #[kani::stub(std::backtrace::Backtrace::capture, no_backtrace)]
 #[kani::stub(alloc::fmt::format, no_format)]
 #[kani::stub(anyhow::__private::format_err, error_opaque)]
-fn bits_reject_non_bits() {
+pub fn bits_reject_non_bits() {
     let xs: [u8; 3] = kani::any();
     kani::assume(xs[0] > 1 || xs[1] > 1 || xs[2] > 1);
     match vec_to_bytes(&xs, BIT) {
@@ -119,7 +119,7 @@ macro_rules! decode64 {
         #[kani::stub(std::backtrace::Backtrace::capture, no_backtrace)]
         #[kani::stub(alloc::fmt::format, no_format)]
         #[kani::stub(anyhow::__private::format_err, error_opaque)]
-        fn $name() {
+        pub fn $name() {
             let raw: [u8; 16] = kani::any();
             let len: usize = kani::any();
             kani::assume(len <= 16);
@@ -149,3 +149,42 @@ decode64!(dec64_i16, INT16, 16, true);
 decode64!(dec64_i32, INT32, 32, true);
 decode64!(dec64_u32, UINT32, 32, false);
 decode64!(dec64_i64, INT64, 64, true);
+
+/// 128-bit reader: arbitrary byte strings: Ok iff the length is a multiple of the element
+/// size, elements sign-extended to 128 bits
+macro_rules! decode128 {
+    ($name:ident, $st:expr, $w:expr, $signed:expr, $max:expr) => {
+        #[kani::proof]
+        #[kani::unwind(19)]
+        #[kani::stub(std::backtrace::Backtrace::capture, no_backtrace)]
+        #[kani::stub(alloc::fmt::format, no_format)]
+        #[kani::stub(anyhow::__private::format_err, error_opaque)]
+        pub fn $name() {
+            let raw: [u8; $max] = kani::any();
+            let len: usize = kani::any();
+            kani::assume(len <= $max);
+            let nb = ($w as usize) / 8;
+            match vec_u128_from_bytes(&raw[..len], $st) {
+                Ok(out) => {
+                    assert!(len % nb == 0 && out.len() == len / nb);
+                    let i: usize = kani::any();
+                    kani::assume(i < out.len());
+                    let mut x: u128 = 0;
+                    for k in 0..nb {
+                        x |= (raw[i * nb + k] as u128) << (8 * k);
+                    }
+                    assert_eq!(out[i], expect(x, $w, $signed));
+                    kani::cover!(out.len() >= 1);
+                    forget(out);
+                }
+                Err(e) => { assert!(len % nb != 0); forget(e); }
+            }
+        }
+    };
+}
+decode128!(dec128_i8, INT8, 8, true, 3);
+decode128!(dec128_u16, UINT16, 16, false, 5);
+decode128!(dec128_i16, INT16, 16, true, 5);
+decode128!(dec128_i32, INT32, 32, true, 9);
+decode128!(dec128_i64, INT64, 64, true, 9);
+decode128!(dec128_u128, UINT128, 128, false, 17);
